@@ -140,6 +140,31 @@ Fixpoint vtab_model (st : tstate) (steps : list vtstep) : list tobs :=
       Ok (table_errors st', map (fun k => (k, row_errors st' k)) rows) :: vtab_model st' r
   end.
 
+(* judged by the running-state form of the spec (Spec/ErrBulk.v): the table's
+   list is the log; a row outside the table shows its pending errors *)
+Fixpoint vtab_ok (s : sst) (steps : list vtstep) : bool :=
+  match steps with
+  | [] => true
+  | (bh, ob) :: r =>
+      let s' := fold_left sstep bh s in
+      match unvtobs ob with
+      | Ok (t, rows) =>
+          errs_eqb t (view (s_log s'))
+          && forallb (fun p => is_joined s' (fst p) || errs_eqb (snd p) (view (pend_of (s_pend s') (fst p)))) rows
+      | _ => false
+      end && vtab_ok s' r
+  end.
+
+(* well-formedness of a bulk history: [wf_event] looks at the kind and the row
+   of an event, never at its error, so one event stands for a whole run *)
+Definition brep (b : bev) : list event :=
+  match b with
+  | BOne ev => [ev]
+  | BRowErrs r k _ => [RowAddError r (Some k)]
+  | BTableErrs k _ => [TableAddError (Some k)]
+  | BCallbacks s r k _ => [CallbackFails s r (Some k)]
+  end.
+
 Inductive c11_case :=
 | CCont (m : cmode) (steps : list (cop * cobs))
 | CTab (steps : list (list event * tobs))
@@ -155,7 +180,7 @@ Definition C11_ok (c : c11_case) : bool :=
   | CTab steps => tab_ok [] (no_other steps)
   | CTab2 steps => tab_ok [] steps
   | CContV m steps => vcont_ok m [] steps
-  | CTabV steps => tab_ok [] (map unvtstep steps)
+  | CTabV steps => vtab_ok s_init steps
   end.
 
 Definition tab_corr (steps : list tstep) : bool :=
@@ -177,7 +202,7 @@ Definition C11_wf (c : c11_case) : bool :=
   | CTab steps => wf_histb (concat (map fst steps))
   | CTab2 steps => wf_histb (concat (map (fun s => fst (fst s)) steps))
   | CContV _ _ => true
-  | CTabV steps => wf_histb (bexpand_all (concat (map fst steps)))
+  | CTabV steps => wf_histb (flat_map brep (concat (map fst steps)))
   end.
 
 Definition C11_case (c : c11_case) : N :=
@@ -190,7 +215,7 @@ Definition C11_model (c : c11_case) : list cobs * list (tobs * option (list err)
   | CTab steps => ([], tab_model init (no_other steps), expected_errors (concat (map fst steps)))
   | CTab2 steps => ([], tab_model init steps, expected_errors (concat (map (fun s => fst (fst s)) steps)))
   | CContV m steps => ([], [], vexpected m (map fst steps))
-  | CTabV steps => ([], [], expected_errors (bexpand_all (concat (map fst steps))))
+  | CTabV steps => ([], [], s_log (srun (concat (map fst steps))))
   end.
 
 (* short forms for cases.v (elaborating the literals is what a run costs) *)
